@@ -71,6 +71,7 @@ func main() {
 		runtime.GOMAXPROCS(job.Procs)
 	}
 	debug.SetTraceback("all")
+	installHooks(!job.Race)
 	r, ok := runners[job.Prop]
 	if !ok {
 		fmt.Fprintln(os.Stderr, "HARNESS no runner for", job.Prop)
@@ -113,6 +114,13 @@ func readReplay(path string, v interface{}) {
 	}
 	if err := json.Unmarshal(b, v); err != nil {
 		fmt.Fprintln(os.Stderr, "HARNESS bad replay:", err)
+		os.Exit(2)
+	}
+}
+
+func mustUnmarshal(b []byte, v interface{}) {
+	if err := json.Unmarshal(b, v); err != nil {
+		fmt.Fprintln(os.Stderr, "HARNESS bad replay case:", err)
 		os.Exit(2)
 	}
 }
